@@ -589,7 +589,9 @@ def _react_once(ctx, site, region, rxn, ref, basis, pid, qid, feed, tgt, phases,
     # the summed magnitudes of the terms that formed it (delta), so the sum seen by the code lies in
     # [s_lo, s_hi] and only outcomes outside that interval are judged.
     neg = float(feas_out[feas_out < 0].sum()) if (feas_out < 0).any() else 0.0
-    delta = np.where(feas_out != feas_in, 1e-14 * mag, 0.0)
+    # (an entry counts as touched when any term was added to it, also if the terms cancel exactly in the reference -
+    # e.g. a series whose second member undoes an intermediate negative flow of the first)
+    delta = np.where(mag > np.abs(feas_in), 1e-14 * mag, 0.0)
     if coef_tol:
         # the reaction object itself is only known up to ``coef_tol`` per stoichiometric coefficient (results of
         # cancelling arithmetic such as (a+b)-b): any entry may be off by coef_tol * (amount of reactant converted)
